@@ -140,7 +140,13 @@ def cat (f : FsCfg) (env : Env) (name : Name) : M Bytes := do
   if !o.flags.read then M.fail .permission else
   if o.hdr.typeflag == tfDir then M.fail .isDirectory else
   match ← fetchedHeader f o.path with
-  | some h => if h.typeflag == tfDir then M.wedge .stuck else restoreContent f o.path
+  | some h =>
+    if h.typeflag == tfDir then M.wedge .stuck
+    else if f.c.emptyDecodeFails && h.size == 0 && (h.pax.get Gen.recSTFSRecordUncompressedSize).isNone then
+      -- a record without content under a codec: decoding the empty stream fails and the
+      -- streaming goroutine turns the error into a panic (finding F18)
+      M.fail .crash
+    else restoreContent f o.path
   | none => restoreContent f o.path
 
 end Stfs
